@@ -184,6 +184,19 @@ def traceB_eval(n_quick, n_thorough, props, attribute):
 EVAL_ATTR = {'expected-values-got-error': 'C01', 'expected-failure-got-values': 'C01', 'values-differ': 'C01', 'error-not-admissible': 'C15'}
 
 
+def keys_gen(label, maxatoms, alphabet, timeout=900, simulate=None, depth=None):
+    return dict(kind='gen', module='Gen_Keys', label=label, props='C16', timeout=timeout, simulate=simulate, depth=depth,
+                constants=dict(MaxAtoms=maxatoms, Alphabet=alphabet), invariants=['LawBracket', 'LawDot', 'LawRecDot', 'Emit'])
+
+
+def c16(tier):
+    if tier == 'quick':
+        return [keys_gen('keys2-full', 2, 'full'), keys_gen('keys3-reduced', 3, 'reduced'),
+                keys_gen('keys-long-simulated', 8, 'full', timeout=15, simulate=100000, depth=9)]
+    return [keys_gen('keys3-full', 3, 'full', 7200), keys_gen('keys4-reduced', 4, 'reduced', 7200),
+            keys_gen('keys-long-simulated', 12, 'full', timeout=600, simulate=10000000, depth=13)]
+
+
 def c02(tier):
     cn = dict(kind='tlc', module='CmpNormalize', label='cmp-normalize-terminates', constants=dict(AsCoded=False),
               invariants=['BuiltRight', 'AtMostOneSwap'], properties=['Terminates'], timeout=120, workers=1)
@@ -213,6 +226,7 @@ CHECKS = {
     'C13': dict(stages=simple_sel('C13', ['LawLocs']), level='model_checking'),
     'C14': dict(stages=c14, level='model_checking'),
     'C15': dict(stages=simple_sel('C15', extra=[lambda: traceB_eval(6000, 200000, 'C15', EVAL_ATTR)]), level='model_checking'),
+    'C16': dict(stages=c16, level='model_checking'),
     'C17': dict(stages=c17, level='model_checking'),
     'C18': dict(stages=c18, level='model_checking'),
 }
